@@ -78,9 +78,21 @@ impl Item for ZDrop {
     fn fresh(_pos: u32, _owner: u8) -> Self {
         ZDrop::new()
     }
-    type Inner = NoInner;
-    fn into_inner(self) -> Result<NoInner, Self> {
+    type Leaf = ZDrop;
+    type Inner = NoInner<ZDrop>;
+    fn into_inner(self) -> Result<NoInner<ZDrop>, Self> {
         Err(self)
+    }
+}
+impl Leaf for ZDrop {
+    fn lid(&self) -> u32 {
+        0
+    }
+    fn lval(&self) -> u32 {
+        0
+    }
+    fn mk(_val: u32, _owner: u8) -> Self {
+        ZDrop::new()
     }
 }
 
